@@ -20,7 +20,10 @@ import vlib
 
 
 class Server:
-    def __init__(self, exe, entry, workdir, mode):
+    def __init__(self, exe, entry, workdir, mode, cwd=None):
+        """cwd: run the compiler in that directory (with `entry` relative to it: the entry module then
+        has a relative path, as in `cd project && erg main.er`)"""
+        self.cwd = cwd
         env = dict(os.environ)
         env["ERG_PATH"] = os.path.join(vlib.BUILD, "erg_path")
         os.makedirs(workdir, exist_ok=True)
@@ -32,7 +35,7 @@ class Server:
 
     def _start(self):
         self.p = subprocess.Popen(self.args, env=self.env, stdin=subprocess.PIPE, stdout=subprocess.PIPE,
-                                  stderr=subprocess.DEVNULL, text=True, bufsize=1)
+                                  stderr=subprocess.DEVNULL, text=True, bufsize=1, cwd=self.cwd)
 
     def run(self, prefix):
         if self.p is None or self.p.poll() is not None:
@@ -97,7 +100,7 @@ class Exploration:
         self.capped = False
 
 
-def explore(exe, entry, tag, bound, mode="compile", replay_every=8, cap=None, nworkers=None):
+def explore(exe, entry, tag, bound, mode="compile", replay_every=8, cap=None, nworkers=None, cwd=None):
     """All schedules of compiling `entry` with <= bound preemptions."""
     nworkers = nworkers or vlib.NCPU
     base = os.path.join(vlib.BUILD, "sched", tag)
@@ -111,7 +114,7 @@ def explore(exe, entry, tag, bound, mode="compile", replay_every=8, cap=None, nw
         s = getattr(local, "s", None)
         if s is None:
             with lock:
-                s = Server(exe, entry, os.path.join(base, f"w{len(servers)}"), mode)
+                s = Server(exe, entry, os.path.join(base, f"w{len(servers)}"), mode, cwd=cwd)
                 servers.append(s)
             local.s = s
         return s
